@@ -6,6 +6,7 @@ import (
 	"os"
 	"sort"
 	"strings"
+	"sync"
 	"time"
 
 	"golang.org/x/tools/go/ssa"
@@ -200,6 +201,81 @@ func main() {
 		if !allOK {
 			os.Exit(1)
 		}
+	case "sweep":
+		// zero-annotation safety sweep over every function whose name contains one of the patterns (information only)
+		eng, err := loadEngine(*repo)
+		if err != nil {
+			fmt.Println("load:", err)
+			os.Exit(2)
+		}
+		eng.computeEffects()
+		var fns []*ssa.Function
+		for _, pat := range fs.Args() {
+			fns = append(fns, findFuncs(eng, pat)...)
+		}
+		opts.SingleMs = 5000
+		opts.QuickMs = 2000
+		type out struct {
+			name         string
+			ok           bool
+			n, d         int
+			fails, notes []string
+		}
+		res := make([]out, len(fns))
+		var wg sync.WaitGroup
+		sem := make(chan struct{}, 8)
+		for i, fn := range fns {
+			wg.Add(1)
+			go func(i int, fn *ssa.Function) {
+				defer wg.Done()
+				sem <- struct{}{}
+				defer func() { <-sem }()
+				defer func() {
+					if r := recover(); r != nil {
+						res[i] = out{name: shortFuncName(fn), notes: []string{fmt.Sprint("engine panic: ", r)}}
+					}
+				}()
+				r := verifyFunc(eng, fn, eng.Contracts[fn], opts)
+				o := out{name: r.Name, ok: true}
+				for _, ob := range r.Obls {
+					o.n++
+					if ob.discharged() {
+						o.d++
+					} else {
+						o.ok = false
+						pos := ""
+						if ob.Pos.IsValid() {
+							p := eng.Fset.Position(ob.Pos)
+							pos = fmt.Sprintf("%s:%d", strings.TrimPrefix(p.Filename, eng.RepoDir+"/"), p.Line)
+						}
+						o.fails = append(o.fails, fmt.Sprintf("%s [%s] %s %s", strings.TrimPrefix(ob.Name, r.Name), ob.Status, pos, ob.Desc))
+					}
+				}
+				o.notes = r.VC.unmodeled
+				res[i] = o
+			}(i, fn)
+		}
+		wg.Wait()
+		okc := 0
+		for _, o := range res {
+			st := "OK  "
+			if !o.ok {
+				st = "FAIL"
+			} else {
+				okc++
+			}
+			fmt.Printf("%s %-70s %d/%d\n", st, o.name, o.d, o.n)
+			for _, f := range o.fails {
+				if len(f) > 200 {
+					f = f[:200]
+				}
+				fmt.Println("      ", f)
+			}
+			for _, n := range o.notes {
+				fmt.Println("       unmodelled:", n)
+			}
+		}
+		fmt.Printf("sweep: %d/%d functions with every safety obligation discharged\n", okc, len(res))
 	case "check":
 		os.Exit(runCheck(*repo, *prop, *tier, opts))
 	case "list":
